@@ -2341,6 +2341,11 @@ void CDNS::CdnsBlockRead::read(CdnsDecoder& dec, std::vector<BlockParameters>& b
         throw CdnsDecoderException("Given Block parameters array is empty!");
 
     clear();
+    // The read cursors must not keep pointing into the discarded content if reading fails part-way
+    m_qr_read = 0;
+    m_aec_read = m_address_event_counts.begin();
+    m_mm_read = 0;
+
     bool is_m_block_preamble = false;
     bool indef = false;
     uint64_t length = dec.read_map_start(indef);
